@@ -14,7 +14,7 @@ RULE = ('an ActiveObject subclass with a small tracked-source capacity (QUEUE_SI
         'parameters, inside/outside, context-switch sequence prefix) tuples')
 CASES = {'quick': 1000, 'thorough': 50000}
 BUDGET = {'quick': 150, 'thorough': 300}
-REQUIRE = {'runs': 400, 'rejected_nondeferred': 100, 'rejected_deferred': 100, 'rejected_from_handler': 50, 'concurrent_runs': 150, 'rejected_with_zero_period': 100}
+REQUIRE = {'runs': 250, 'rejected_nondeferred': 100, 'rejected_deferred': 100, 'rejected_from_handler': 50, 'concurrent_runs': 83, 'rejected_with_zero_period': 100}
 ASSUME = ['instantaneous-computation time model']
 ANNOUNCE_CASES = True
 
